@@ -196,6 +196,9 @@ pub fn strategy() -> BoxedStrategy<ParCase> {
 #[derive(Clone, Debug, PartialEq, Eq, Hash, Serialize, Deserialize)]
 pub struct BusCase {
     pub wide: bool,
+    /// a failing pin write still changes the pin level
+    #[serde(default)]
+    pub late: bool,
     /// (value, data pin whose next write fails)
     pub steps: Vec<(u16, Option<u8>)>,
 }
@@ -203,6 +206,10 @@ pub struct BusCase {
 fn bus_exec<B: OutputBus<Error = Fault>>(mut bus: B, w: &W, case: &BusCase, info: &mut CaseInfo, mk: impl Fn(u16) -> B::Word) -> Result<(), String> {
     let bits = if case.wide { 16 } else { 8 };
     let mask: u16 = if case.wide { 0xffff } else { 0xff };
+    w.borrow_mut().late_faults = case.late;
+    if case.late {
+        info.label("late-faults");
+    }
     let mut last_ok: Option<u16> = None;
     let mut failed_before: Option<(u16, Option<u16>)> = None; // (attempted, cached before)
     for (i, (v, fail)) in case.steps.iter().enumerate() {
@@ -274,14 +281,14 @@ pub fn check_bus(case: &BusCase, info: &mut CaseInfo) -> Result<(), String> {
 }
 
 pub fn bus_strategy() -> BoxedStrategy<BusCase> {
-    (any::<bool>(), any::<u16>())
-        .prop_flat_map(|(wide, base)| {
+    (any::<bool>(), any::<u16>(), any::<bool>())
+        .prop_flat_map(|(wide, base, late)| {
             // few distinct values, so that "equal to the cached / attempted value" happens often
             let val = prop_oneof![3 => Just(base), 2 => Just(!base), 2 => (0u32..16).prop_map(move |b| base ^ (1 << b)), 1 => any::<u16>()];
             let step = (val, prop_oneof![3 => Just(None), 2 => (0u8..16).prop_map(Some)]);
-            (Just(wide), proptest::collection::vec(step, 1..12))
+            (Just(wide), Just(late), proptest::collection::vec(step, 1..12))
         })
-        .prop_map(|(wide, steps)| BusCase { wide, steps })
+        .prop_map(|(wide, late, steps)| BusCase { wide, late, steps })
         .boxed()
 }
 
@@ -398,7 +405,7 @@ pub fn run(ctx: &Ctx) -> Report {
     rep.sections.push(sec);
     let mut sec = Section::new(
         &format!("set-value-histories[{}]", ctx.variant),
-        "histories of OutputBus::set_value on Generic8BitBus/Generic16BitBus with a single data-pin failure injected at generated steps; invariant after every successful call: pin levels == value; non-trivial = a failure followed by a value equal to the cached or the attempted one",
+        "histories of OutputBus::set_value on Generic8BitBus/Generic16BitBus with a single data-pin failure injected at generated steps (the failed write either leaves the pin level or changes it although it reports failure); invariant after every successful call: pin levels == value; non-trivial = a failure followed by a value equal to the cached or the attempted one",
     );
     run_generated(&mut sec, ctx.seed ^ 7, ctx.cases(500_000, 12_000_000), ctx.workers, bus_strategy, check_bus, |c, _| format!("c07:bus:{}", if c.wide { 16 } else { 8 }));
     rep.sections.push(sec);
